@@ -19,19 +19,29 @@ LEVEL_TEXT = ("Lean theorems for ALL finite projects (any number of targets, any
               "reachable from the requested targets; otherwise the executed sequence is duplicate-free, consists exactly of the "
               "requested targets and their transitive dependencies (each count = 1, everything else count = 0), and every "
               "execution of a target is preceded by the execution of each of its dependencies; the walk terminates (well-founded "
-              "recursion). The model (Model.Tasks.visit) is hand-written after the fixed Project.dfs/target_sequence and tied to "
+              "recursion). Histories: a project object is modelled as a state machine (add_target / add_dependency / run / check_target) "
+              "and it is proved that in ANY history the i-th build equals the stateless run on the project as edited so far (earlier "
+              "builds are irrelevant), hence satisfies all of the above. The model "
+              "(Model.Tasks.visit) is hand-written after the fixed Project.dfs/target_sequence and tied to "
               "ppci/build/tasks.py by an exhaustive differential run (all labelled graphs on <=4 targets quick / <=5 thorough x "
-              "all non-empty request subsets) of the real TaskRunner with a recording task, on every check. The code as it was "
+              "all non-empty request subsets) of the real TaskRunner with a recording task, on every check. "
+              "Histories of 2-3 builds (+ checks, edits) on ONE Project+TaskRunner object are run as well (every pair of request lists "
+              "on every graph with <=3 targets, sampled beyond), each build judged independently. The code as it was "
               "before the fix is modelled separately and refuted by two Lean-checked witnesses (diamond; partial-order sort).")
 LEVEL_NOTE = ("trusted: Lean kernel; axioms propext/Quot.sound (Classical.choice not needed); hand model <-> source correspondence is "
               "exhaustive only up to 5 targets (plus random larger graphs), not proved; Python sets/sorted()/list are modelled by "
-              "lists of name ranks; task execution itself, macro expansion, project.default and the XML recipe loader are outside the model; "
+              "lists of name ranks; that the real Project/TaskRunner objects carry no state between builds other than the graph is checked "
+              "on histories of <=8 calls only (exhaustive pairs for <=3 targets), not proved; task execution itself, macro expansion, project.default and the XML recipe loader are outside the model; "
               "the driver is run as leanc-compiled code (cross-checked against `lean --run` on ~900 requests per run)")
 TECHNIQUE = "Lean 4 proof by functional induction over a hand model of the DFS + exhaustive differential correspondence with the real TaskRunner"
 RULE = ("case = (labelled dependency graph, request list). Exhaustive: every digraph without self-loops on n<=4 (quick) / n<=5 "
         "(thorough) targets x every non-empty request subset (sorted), every digraph WITH self-loops on n<=3 (quick) / n<=4 "
         "(thorough); plus corpus, random graphs on 5..9 targets, permuted/duplicated request lists, dangling names, and "
-        "check_target on every single target. Target insertion order, dependency insertion order and the target names are "
+        "check_target on every single target. Histories on one Project+TaskRunner object: every ordered pair of duplicate-free "
+        "request lists (all orders) for every digraph on <=3 targets (thorough: also with self-loops, all triples, all subset pairs on "
+        "4 targets, [build, add one dependency, build]), random 3..8-call histories with add_target/add_dependency/check_target in "
+        "between; every build of a history is compared with the stateless model and judged by the property on the graph as it is "
+        "then. Target insertion order, dependency insertion order and the target names are "
         "varied independently of the name ranks the model sees. non-trivial = the needed part has >=3 targets and contains a "
         "shared dependency (in-degree >=2 inside the needed part) or a cycle; distinct = distinct (graph, request) pair")
 TRUSTED = [
@@ -43,6 +53,7 @@ ASSUMPTIONS = [
     "a target's execution is observed through one recording task per target (registered in task_map as 'verifrecord')",
     "sorted() of dependency names = ascending rank; `x in set`/`x in list` = list membership",
     "project.default (used only for an empty request) is not modelled",
+    "a Project object's state relevant to ordering is its targets and their dependency sets (the history model has no other state; tied by the history correspondence)",
 ]
 
 VERIF = Path(__file__).resolve().parent.parent
